@@ -188,7 +188,7 @@ def redStep (s : DState) : List String → Option (DState × String)
   | ["replace", eref, gref] =>
     match elemOf s eref, elemAt s gref with
     | some (_, r, slot, p), some (new, _) =>
-      let id := 2000000 + s.greens.size
+      let id := 2000000 + 1000 * s.greens.size
       match replaceWith (fxChildHash s.mask) id r.root p new with
       | none => some (s, "panic")
       | some g =>
